@@ -94,8 +94,16 @@ def run(ctx):
         for (sb, tt, ft, place) in sws:
             if tt in dom.get(bb, ()) and sb in dom.get(bb, ()):
                 return True
-        if depth >= 2:
+        if depth >= 3:
             return False
+        if b.kind.startswith(("closure", "coroutine")):
+            from ..interproc import creation_site
+            par, agg = creation_site(facts, b)
+            if par is not None:
+                for pb in sorted(par.reachable_blocks()):
+                    for st in par.blocks[pb]["stmts"]:
+                        if st["k"] == "assign" and st["rv"] is agg:
+                            return guarded_site(par, pb, depth + 1)
         owner = b
         while owner is not None and owner.kind not in ("Fn", "AssocFn"):
             owner = facts.body(owner.parent) if owner.parent else None
